@@ -7,11 +7,12 @@ Import ListNotations.
 Local Open Scope Z_scope.
 
 (** THE SIMULATION.  For ANY time type, frame type, sample / volume / panning operations (so: bit for bit in
-    IEEE arithmetic), any audio, slice inside it, start position (also beyond the end), loop region (also empty,
+    IEEE arithmetic), any audio, ANY slice (inside the audio, reaching beyond it, inverted, empty: both sounds clip it),
+    start position (also beyond the end), loop region (also empty,
     inverted or beyond the end), start time, initial volume / rate / panning values (fixed or modulator-linked),
     fade-in, any conforming decoder (any packet sizes INCLUDING EMPTY PACKETS, fewer than [EP] in a row; any seek landings), any history of decoder-loop iterations
     and callbacks with volume / rate / panning / pause / resume / resume_at / stop commands and any infos, in which
-    every rate value read is non-negative:  the two constructors succeed and the two handles report the same
+    every rate value read is non-negative (not NaN, not below zero; -0.0 is a non-negative rate):  the two constructors succeed and the two handles report the same
     position and state before the first callback, and whenever the streaming run completes
     with the decoder having kept ahead (ghost flag [false]: at every frame processed the ring held the four frames
     looked at and the frames popped, or the decoder had finished), the static run completes too, with the same
@@ -151,7 +152,7 @@ Proof. exact pos_within. Qed.
 Theorem scheduler_frame_correct :
   forall (A : Type) (azero : A) (fuel : nat) (audio : list A) (slice : option (Z * Z)) (start : Z)
          (lr : option (Z * Z)) (B : Z),
-    slice_wf A audio slice -> Z.of_nat (length audio) < u64_max -> 0 <= start -> start < B ->
+    slice_wf slice -> Z.of_nat (length audio) < u64_max -> 0 <= start -> start < B ->
     N A azero audio slice <= B -> B < u64_max -> B < Z.of_nat fuel -> req_loop B lr ->
     forall EP : nat, (need_fuel (length audio) EP <= fuel)%nat ->
     forall (D : Type) (dpos dsize : D -> nat) (dnext : D -> D) (dseek : D -> nat -> D) (derr : D -> bool),
@@ -201,9 +202,9 @@ Theorem endless_empty_packets_hang_refuted :
     decode_loop A audio unit (fun _ => 0%nat) (fun _ => 0%nat) (fun d => d) (fun _ => false) fuel s index = Hang.
 Proof. exact endless_empty_packets_hang. Qed.
 
-(** a non-negative rate is what both sounds advance by: [abs] and [max(0.0)] leave it alone *)
+(** a non-negative rate is what both sounds advance by: [abs] and [max(0.0)] agree on it (also on -0.0) *)
 Theorem nonneg_rate_same_step :
-  forall (T : Type) (NT : Num T) (r : T), rate_nonneg r -> nabs r = r /\ nmax0 r = r.
+  forall (T : Type) (NT : Num T) (r : T), rate_nonneg r -> nmax0 r = nabs r.
 Proof. exact (@nonneg_steps). Qed.
 
 (** the rate hypothesis is decidable on concrete histories *)
@@ -241,15 +242,36 @@ Theorem starved_refuted :
     ~ Forall2 (obs_rel fq 4) xs ys.
 Proof. exact starved_witness. Qed.
 
-(** the slice reaches beyond the audio: the static sound clips it and plays, the streaming sound's decoder runs
-    out of data, the sound stops with an error and is silent throughout *)
-Theorem slice_beyond_audio_refuted :
-  ~ slice_wf fq audio8 (Some (5, 11)) /\ rates_nonneg powq Q Q g2 evs3 /\
+(** REGRESSION, finding F46 (fixed): slices reaching beyond the audio, inverted slices, slices starting beyond the
+    audio.  The streaming sound clips the slice to the audio like the static sound, so these satisfy the property (they
+    are instances of the simulation theorem; the runs are computed: they complete with the decoder ahead). *)
+Theorem slice_beyond_audio_regression :
   exists x w xs ys,
     s_newq 4 (audio_source fq zq audio8) (Some (5, 11)) g2 = Ok x /\ y_newq 4 (Some (5, 11)) g2 = Ok w /\
-    s_runq x evs3 = Ok xs /\ y_runq w evs3 = Ok (ys, false) /\
-    ~ Forall2 (obs_rel fq 4) xs ys.
-Proof. exact slice_beyond_witness. Qed.
+    s_runq x evs3 = Ok xs /\ y_runq w evs3 = Ok (ys, false) /\ Forall2 (obs_rel fq 4) xs ys.
+Proof. exact slice_beyond_regression. Qed.
+Theorem slice_beyond_audio_is_heard :
+  exists x xs, s_newq 4 (audio_source fq zq audio8) (Some (5, 11)) g2 = Ok x /\ s_runq x evs3 = Ok xs /\
+               nth 1 xs (OPos 0%Q 0 0 0%Q 0) = OOut [(6%Q, (-6)%Q); (129 # 16, -129 # 16)%Q; (0%Q, 0%Q); (0%Q, 0%Q)] 6 true.
+Proof. exact slice_beyond_heard. Qed.
+Theorem slice_inverted_regression :
+  exists x w xs ys,
+    s_newq 4 (audio_source fq zq audio8) (Some (6, 2)) g2 = Ok x /\ y_newq 4 (Some (6, 2)) g2 = Ok w /\
+    s_runq x evs3 = Ok xs /\ y_runq w evs3 = Ok (ys, false) /\ Forall2 (obs_rel fq 4) xs ys.
+Proof. exact ProofsExamples.slice_inverted_regression. Qed.
+Theorem slice_start_beyond_audio_regression :
+  exists x w xs ys,
+    s_newq 4 (audio_source fq zq audio8) (Some (9, 20)) g2 = Ok x /\ y_newq 4 (Some (9, 20)) g2 = Ok w /\
+    s_runq x evs3 = Ok xs /\ y_runq w evs3 = Ok (ys, false) /\ Forall2 (obs_rel fq 4) xs ys.
+Proof. exact slice_start_beyond_regression. Qed.
+(** why the old code failed: with [num_frames = end - start] (6 for the slice (5, 11) of 8 frames) the scheduler asks
+    the decoder for frame 5 + 3 = 8, which does not exist; the decoder fails and the whole sound is stopped *)
+Theorem old_slice_length_decodes_past_the_end_refuted :
+  q_frame_at_index fq zq fuelq audio8 dq dq_pos dq_size dq_next dq_seek dq_err
+    {| q_status := Running; q_dec := {| ds_dec := dq0; ds_cur := 0; ds_chunk := None |};
+       q_slice := Some (5, 11); q_n := 11 - 5; q_tr := transport_new 0 None false (11 - 5) |} 3
+  = Ok (None, {| ds_dec := (8%nat, 12%nat); ds_cur := 8; ds_chunk := Some (7%nat, [(8%Q, (-8)%Q)]) |}).
+Proof. exact old_slice_length_decodes_past_the_end. Qed.
 
 (** a negative rate: the static sound plays backwards, the streaming sound stands still *)
 Theorem negative_rate_refuted :
@@ -260,11 +282,17 @@ Theorem negative_rate_refuted :
     ~ Forall2 (obs_rel fq 4) xs ys.
 Proof. exact negative_rate_witness. Qed.
 
-(** binary64 / binary32: an initial rate of -0.0 (not NaN, not below zero, sign bit set) followed by
-    [set_playback_rate(1.0)]: the static sound's pre-fill has walked backwards from the start position; the
-    encoded traces of the two models (left and right of the 777777 mark in [Run.run]) differ *)
-Theorem negative_zero_rate_refuted :
+(** REGRESSION, finding F47 (fixed), binary64 / binary32: an initial rate of -0.0 followed by
+    [set_playback_rate(1.0)].  -0.0 is inside the rate hypothesis; the static sound's direction test is
+    [rate < 0.0], and the encoded traces of the two models (left and right of the 777777 mark in [Run.run]) agree. *)
+Theorem negative_zero_rate_regression :
   let r := f64_of_bits nz64 in
-  nisnan r = false /\ nltb r n0 = false /\ nsignneg r = true /\
-  exists l1 l2, run negzero_case = l1 ++ 777777 :: l2 /\ ~ In 777777 l1 /\ l1 <> l2.
-Proof. exact negative_zero_witness. Qed.
+  rate_nonneg r /\
+  exists l, run negzero_case = l ++ 777777 :: l /\ ~ In 777777 l /\
+            l = [4602678819172646912; 0; 0; 4602678819172646912; 0; 1077936128; 0; 1079955608; 0; 1082130432; 0; 0; 0].
+Proof. exact negative_zero_regression. Qed.
+(** why the old code failed: the sign-bit test ([is_sign_negative]) calls -0.0 "backwards", the comparison does not;
+    [abs] and the model's [max(0.0)] both turn it into +0.0 *)
+Theorem old_direction_test_reads_the_sign_bit_refuted :
+  let r := f64_of_bits nz64 in nsignneg r = true /\ nltb r n0 = false /\ nabs r = f64_of_bits 0 /\ nmax0 r = nabs r.
+Proof. exact old_direction_test_reads_the_sign_bit. Qed.
